@@ -79,3 +79,27 @@ _core_prop("C16", "A size-bounded merge keeps exactly the newest entries of the 
     "Lean 4: theorems on the transcription of Join with a size bound",
     "Kernel-checked on the model: the bounded join holds exactly the last min(n,total) values of the unbounded join's linearisation with heads recomputed over them; a bound >= total equals the unbounded join; the model has no panic outcome and the harness records a panic of the implementation as an outcome. Correspondence: bounds 0..total+3 on forked pairs.",
     CORE_NOTE)
+
+PROPS["C07"] = dict(
+    title="Signatures are tamper-evident over every signed field",
+    streams=[dict(name="sign", quick=["-n", "60"], thorough=["-n", "1500", "-thorough"], shards_quick=3, shards_thorough=12)],
+    diff_fields=r".*",
+    spec_ids=["C07"],
+    technique="Lean 4: injectivity of the exact signed byte string (encoding/json transcription with a Go-faithful UTF-8 decoder) via a prefix-code argument; ideal-signature hypothesis; byte-exact differential run against entry.VerifToBuffer and real Verify on every single-field mutation",
+    level_text="Kernel-checked: toBuffer (the key-sorted JSON object that is signed, with Go's HTML-escaping string encoder) is injective on the signed view (id, payload, next, refs, v, clock id, clock time, additional data, strings read as token lists) — toBuffer_injective / toBuffer_eq_iff; for valid UTF-8 the view is the bytes themselves; under an ideal signature scheme (hypothesis) any change of a signed component, a substituted key or a signature made for other bytes makes verification fail (tamper_detected_*). The full statement is FALSE for payload/log-id/additional-data bytes that are not valid UTF-8 (each invalid byte is signed as U+FFFD): proved as payload_collision / tamper_detected_full_is_false and reproduced on the implementation — known finding payload-invalid-utf8-collision. Tied to the code: model bytes = entry.VerifToBuffer byte for byte on generated entries, and the real Verify outcome on ~60 mutations per entry equals the model's prediction.",
+    level_note="Assumed: unforgeability of secp256k1 ECDSA in the idealised form verify pk m s <-> s = sign sk m (signature malleability (r, n-s) is outside the claim); Go's encoding/json and utf8 behaviour as transcribed (checked byte-exactly incl. all 256 single bytes and a lead/continuation grid); harness, driver.",
+    design_ref="§8 C07",
+    rule="one entry per case through the real CreateEntryWithIO with payloads cycling through 19 classes (ASCII, 2/3/4-byte UTF-8, controls, HTML, quotes, U+2028/9, five kinds of invalid UTF-8, U+FFFD, empty, 4 KiB, random), 0-8 links, 11 clock times incl. int64 extremes, additional data; ~60 single-field mutations each; distinct = distinct entries; non-trivial = has links, additional data or a non-ASCII payload",
+)
+
+PROPS["C20"] = dict(
+    title="Key material and identities are stable and self-consistent",
+    streams=[dict(name="keys", quick=["-n", "30", "-ops", "0"], thorough=["-n", "400", "-ops", "0", "-thorough"], shards_quick=3, shards_thorough=12)],
+    diff_fields=r".*",
+    spec_ids=["C20"],
+    technique="Lean 4: invariant induction over all operation sequences of keystores (LRU cache of any capacity) sharing a datastore; differential run of 1-4 real keystores beyond the cache capacity with restarts",
+    level_text="Kernel-checked for all op sequences, any number of keystores over one datastore, any cache capacity >= 1: every cached key equals the stored one (cache_coherent), a created key is reported present and returned identically by every keystore incl. after eviction and restart (created_present, key_stable), a never-created id is absent, CreateIdentity is deterministic per id, and under an ideal signature scheme the id signature, the public-key signature and entry signatures verify under the published keys. Tied to the code by replaying create/get/has/createIdentity/restart sequences over up to 400 ids (cache size 128) on real keystores and comparing every answer, with the real signature checks.",
+    level_note="Hypothesis wf: a direct CreateKey is applied to ids whose datastore key is empty (get-or-create is unrestricted); re-creating an existing id replaces the key by design. Assumed: ideal signatures; golang-lru eviction as modelled (compared through LRU probes); datastore key cleaning as transcribed (dsKey, compared with datastore.NewKey). Note recorded in DESIGN.md: ids that clean to the same datastore key (\"x\", \"/x\", \"x/\") alias each other.",
+    design_ref="§8 C20",
+    rule="cases of 1-4 keystores x up to 400 ids incl. odd ids; ops create/get/has/has-never-created/createIdentity/sign/restart in PRNG order; non-trivial = a created key is read through a non-creator keystore, after a restart, or after >= 128 later creations",
+)
